@@ -32,8 +32,9 @@ ASSUMPTIONS = [
 ]
 EXPLANATION = 'explicit-state search over selection/concatenation/replacement histories on lazily read tables, byte-level oracle'
 MANIFEST_TEXT = ('Explicit-state exploration of every history up to depth 3 (quick) / 4 (thorough) over {slice, step, reverse, '
-                 'mask, integer list with repeats, empty selection, save, concatenate both orders, replace field} on lazily read '
-                 'BED6/narrowPeak/VCF with sample columns/SAM +/- tags/FASTQ with "+name"/two-line FASTA files (LF and CRLF) '
+                 'mask, integer list with repeats, empty selection, save, concatenate both orders, replace field, write, read a field} plus probes '
+                 'one step deeper [select; read a field | replace; write; replace] on lazily read '
+                 'BED6/BED12/narrowPeak/VCF with sample columns/SAM +/- tags/FASTQ with "+name"/two-line FASTA files (LF and CRLF) '
                  'written in non-canonical spellings (leading zeros, "+5", "1e3", "-0"): index-only histories must write exactly '
                  'the source bytes of the selected records; after concatenation/replacement every non-replaced entry field '
                  'keeps its source text and replaced fields carry canonical text.')
